@@ -17,6 +17,11 @@ node  = {"t":"lit","s":text}
       | {"t":"choose","pick":0|1|2,"kids":[[node],[node]]}   <py:choose> when/otherwise
       | {"t":"def","name":f,"param":x,"kids":[node]}          <py:def function="f(x)">
       | {"t":"match","name":n,"kids":[node]}                   reserved
+      | {"t":"cdata","s":text}                                 <![CDATA[text]]> written by the template author (literal; oracle only:
+                                                               the Lean model has no CDATA events, such a case has no model counterpart)
+      an "el" whose name is script/style (RAW) has no py:content and at most one literal child without `<`, `&`;
+      static elements (literal attributes and text only) are written two or three times in a row or
+      spread over a body, so that later events of every kind are served from the serializer's cache
 attr  = {"name":n,"parts":[{"lit":s} | {"e":expr,"form":"brace"|"dollar"}]}
 expr  = {"k":"var","n":name} | {"k":"list","items":[name]} | {"k":"gen","items":[name]}
       | {"k":"call","f":f,"arg":name}
@@ -41,6 +46,16 @@ ELEMS = ['div', 'p', 'span', 'b', 'i', 'em', 'ul', 'li', 'a', 'td', 'h1', 'secti
 # elements, so no whitespace-preserving ones there
 MARKUP_ELEMS = [e for e in ELEMS if e not in ('pre', 'textarea')]
 VOID = ['br', 'hr', 'img']
+# raw-text elements of html (HTMLSerializer._NOESCAPE_ELEMS): the template author writes literal text
+# in them (the property excepts substitution *inside* them under html); what matters to C01 is what
+# is written AFTER them.  The literal text has no `<` and no `&`, so that reading it as character
+# data and reading it as raw text agree (under html a `>` or `"` comes back verbatim only when the
+# serializer did switch escaping off).
+RAW = ['script', 'style']
+RAW_TEXTS = ['var a = 1;', 'var a = 1;', 'if (a > 1) { f("x") }', 'p > b { color: red }', ' ', 'x', '\n  var b = 2;  \n\n',
+             'a = b > c ? "1" : \'2\';']
+CDATA_TEXTS = ['x < y & z', '<b>', ']] >', 'a', '&amp;', ' \n', '</root>', '"\'']
+RAW_ATTRS = [[], [], [['type', 'text/javascript']], [['type', 'text/css'], ['title', 'a"b']]]
 ATTRS = ['title', 'class', 'href', 'id', 'alt', 'data-x', 'lang', 'name', 'value', 'style', 'onclick']
 KWATTRS = {'title': 'title', 'class_': 'class', 'href': 'href', 'id': 'id', 'data_x': 'data-x', 'alt': 'alt'}
 
@@ -429,6 +444,11 @@ class Spec(object):
             return [T(n['s'])]
         if t == 'site':
             return self.expr_toks(n['e'], env)
+        if t == 'cdata':
+            # xml / xhtml keep the section (an independent parser reports where it starts); html drops the
+            # markers and escapes the text
+            # (['BRK']: the whitespace filter normalises the text on either side of a section boundary separately)
+            return ([['CDATA']] if self.case['method'] != 'html' else [['BRK']]) + [T(n['s']), ['BRK']]
         if t == 'el':
             if 'for' in n:
                 items = self.iter_items(n['for']['e'], env)
@@ -499,6 +519,49 @@ class Spec(object):
         return toks
 
 
+def cache_shapes(toks):
+    """which events of a (resolved) skeleton the serializer serves from its per-render cache, and whether
+    character data follows the cached END of a raw-text element before any other END (the shape of the
+    seeded change C01-3).  Returns a sorted list of shape names (for res.dist)."""
+    seen = set()
+    shapes = set()
+    nraw = 0
+    armed = False                      # a cached END of a raw-text element, no END since
+    cdata_seen = False
+    for i, t in enumerate(toks):
+        if t[0] == 'S':
+            empty = i + 1 < len(toks) and toks[i + 1][0] == 'E'
+            key = ('EMPTY' if empty else 'S', t[1], tuple(sorted(t[2].items())))
+            if t[1] in RAW and not empty:
+                nraw += 1
+        elif t[0] == 'E':
+            if i > 0 and toks[i - 1][0] == 'S':
+                continue               # part of an EMPTY event
+            key = ('E', t[1])
+        elif t[0] != 'T':
+            if t[0] == 'CDATA':
+                shapes.add('cdata-section')
+                cdata_seen = True
+            continue
+        else:
+            if cdata_seen:
+                shapes.add('text-after-cdata-section')
+            key = ('T', t[1])
+            if armed:
+                shapes.add('text-after-cached-raw-END')
+                if any(c in t[1] for c in '<&'):
+                    shapes.add('hostile-text-after-cached-raw-END')
+        if key in seen:
+            shapes.add('cache-hit:' + {'S': 'START', 'E': 'END', 'T': 'TEXT', 'EMPTY': 'EMPTY'}[key[0]])
+            if key[0] == 'S' and key[1] in RAW:
+                shapes.add('cache-hit:raw-START')
+        if key[0] == 'E':
+            armed = key in seen and key[1] in RAW
+        seen.add(key)
+    shapes.add('raw-elements:%s' % (nraw if nraw < 2 else '2+'))
+    return sorted(shapes)
+
+
 def first_choice(toks):
     """the token list with every ALT resolved to its first alternative (for messages)"""
     out = []
@@ -512,12 +575,15 @@ def first_choice(toks):
 
 def same_tokens(want, got, strip):
     """token lists agree; with strip_whitespace a run of character data may come back verbatim or with
-    the documented normalisation (which elements preserve white space is not C01's concern)"""
+    the documented normalisation (which elements preserve white space is not C01's concern); the filter
+    normalises what lies between two non-text events, so a run that contains a CDATA section written by the
+    template author may also come back with its pieces normalised one by one (w[2])"""
     if len(want) != len(got):
         return False
     for w, g in zip(want, got):
         if w[0] == 'T' and g[0] == 'T':
-            if g[1] != w[1] and not (strip and g[1] == normws(w[1])):
+            if g[1] != w[1] and not (strip and g[1] == normws(w[1])) and \
+                    not (strip and len(w) > 2 and g[1] == ''.join(normws(x) for x in w[2])):
                 return False
         elif w != g:
             return False
@@ -561,12 +627,29 @@ PRESERVE = {'xml': frozenset(), 'xhtml': frozenset(['pre', 'textarea']), 'html':
 
 def coalesce(toks, strip=False, method=None):
     """merge adjacent text, drop empty text; with strip, each run as strip_whitespace documents it:
-    normalised unless it lies inside a whitespace-preserving element of the method"""
+    normalised unless it lies inside a whitespace-preserving element of the method.  A ['BRK'] token (the
+    boundary of a CDATA section the template author wrote) does not separate character data for a parser,
+    but the whitespace filter normalises the pieces on either side of it separately: a merged run that
+    contains one carries its pieces as a third component"""
     out = []
+    glue = False
     for t in toks:
+        if t[0] == 'BRK':
+            glue = bool(out) and out[-1][0] == 'T'
+            if glue and len(out[-1]) < 3:
+                out[-1] = ['T', out[-1][1], [out[-1][1]]]
+            if glue:
+                out[-1][2].append('')
+            else:
+                out.append(['T', '', ['', '']])
+            continue
         if t[0] == 'T':
             if out and out[-1][0] == 'T':
-                out[-1] = ['T', out[-1][1] + t[1]]
+                last = out[-1]
+                if len(last) > 2:
+                    out[-1] = ['T', last[1] + t[1], last[2][:-1] + [last[2][-1] + t[1]]]
+                else:
+                    out[-1] = ['T', last[1] + t[1]]
             else:
                 out.append(['T', t[1]])
         else:
@@ -576,9 +659,12 @@ def coalesce(toks, strip=False, method=None):
     res = []
     for t in out:
         if t[0] == 'T':
-            s = normws(t[1]) if (strip and depth == 0) else t[1]
-            if s:
-                res.append(['T', s])
+            if strip and depth == 0:
+                s = ''.join(normws(x) for x in t[2]) if len(t) > 2 else normws(t[1])
+                if s:
+                    res.append(['T', s])
+            elif t[1]:
+                res.append(['T', t[1]] + ([t[2]] if len(t) > 2 and len(t[2]) > 1 else []))
         else:
             if t[0] == 'S' and (depth > 0 or t[1] in pres):
                 depth += 1
@@ -735,6 +821,8 @@ def node_src(n, nxt=None):
     t = n['t']
     if t == 'lit':
         return lit_src(n['s'])
+    if t == 'cdata':
+        return '<![CDATA[' + n['s'] + ']]>'
     if t == 'site':
         if n['form'] == 'replace-attr':
             return '<span py:replace="%s">old</span>' % expr_src(n['e'])
@@ -955,10 +1043,7 @@ class Gen(object):
         items = []
         for name in rng.sample(ATTRS, rng.randrange(1, 3)):
             v = rand_scalar(rng, self.method, 'attr', allow_safe=False)
-            # inside the hypothesis of attrs_site_partial: a value that is blank after trimming removes the
-            # attribute (finding C01-attrs-blank-dropped), so blank values are not generated here
-            if v['k'] in ('s', 'o') and not v['str' if v['k'] == 'o' else 's'].strip():
-                v = {'k': 's', 's': 'x'} if v['k'] == 's' else {'k': 'o', 'str': 'x', 'html': None}
+            # blank values included: after fix ce82919 only None removes an attribute (C01-attrs-blank-dropped)
             items.append([name, self.newvar(v)])
         form = rng.choice(['dict', 'list', 'var'])
         pa = {'form': form, 'items': items}
@@ -967,11 +1052,50 @@ class Gen(object):
             pa['var'] = self.newvar({'k': 'pairs', 'dict': rng.random() < 0.6, 'items': items}, 'd')
         return pa
 
+    def raw_el(self):
+        """<script>/<style> with literal attributes and literal raw-safe text"""
+        rng = self.rng
+        txt = rng.choice(RAW_TEXTS + [''])
+        return {'t': 'el', 'name': rng.choice(RAW),
+                'attrs': [{'name': an, 'parts': [{'lit': av}]} for an, av in rng.choice(RAW_ATTRS)],
+                'kids': [{'t': 'lit', 's': txt}] if txt else []}
+
+    def static_el(self, depth=0):
+        """an element without any substitution site: the same events every time it is written"""
+        rng = self.rng
+        r = rng.random()
+        if r < 0.4:
+            return self.raw_el()
+        attrs = [{'name': an, 'parts': [{'lit': rng.choice(['x', 'a b', '"', '&', '<', "'", 'k'])}]}
+                 for an in rng.sample(ATTRS, rng.choice([0, 1, 1, 2]))]
+        if r < 0.55:
+            return {'t': 'el', 'name': rng.choice(VOID), 'attrs': attrs, 'kids': []}
+        kids = []
+        for _ in range(rng.randrange(0, 3)):
+            if rng.random() < 0.3 and depth < 2:
+                kids.append(self.static_el(depth + 1))
+            elif not (kids and kids[-1]['t'] == 'lit'):
+                kids.append({'t': 'lit', 's': rng.choice(['x', 'a<b', '&', ' ', 'k\n', '"', '<b>', '</script>'])})
+        return {'t': 'el', 'name': rng.choice(ELEMS), 'attrs': attrs, 'kids': kids}
+
     def nodes(self, env, depth, n=None):
         rng = self.rng
         out = []
         for _ in range(rng.randrange(1, 4) if n is None else n):
             out.append(self.node(env, depth))
+        if out and rng.random() < (0.30 if depth == 0 else 0.12):
+            # the same static element two or three times before (some of) the nodes: its START / END /
+            # TEXT / EMPTY events are cache hits from the second copy on
+            import copy
+            st = self.static_el()
+            k = rng.choice([2, 2, 3])
+            if rng.random() < 0.5:
+                pos = [rng.randrange(0, len(out))] * k              # in a row
+            else:
+                pos = sorted(rng.randrange(0, len(out) + 1) for _ in range(k))
+                pos[0] = min(pos[0], len(out) - 1)
+            for j, q in enumerate(pos):
+                out.insert(q + j, copy.deepcopy(st))
         # two adjacent literals are one literal in the source
         merged = []
         for x in out:
@@ -993,6 +1117,10 @@ class Gen(object):
             e = self.text_expr(env, depth)
             return {'t': 'site', 'form': form, 'e': e}
         if r < 0.80:
+            if rng.random() < 0.07:
+                return self.raw_el()
+            if rng.random() < 0.04:
+                return {'t': 'cdata', 's': rng.choice(CDATA_TEXTS)}
             if rng.random() < 0.12:
                 n = {'t': 'el', 'name': rng.choice(VOID), 'attrs': [], 'kids': []}
             else:
@@ -1261,6 +1389,11 @@ def validate(case):
         else:
             raise OutsideGrammar('expr ' + str(k))
 
+    def raw_ok(n):
+        if n.get('content') is not None or len(n['kids']) > 1:
+            return False
+        return all(k['t'] == 'lit' and not any(c in k['s'] for c in '<&') for k in n['kids'])
+
     def loop_expr(e, bound):
         if e['k'] == 'var':
             _req(e['n'] not in bound and e['n'] in data and data[e['n']]['k'] in ('l', 'g'), 'loop var')
@@ -1277,11 +1410,15 @@ def validate(case):
             if t == 'lit':
                 _req(isinstance(n['s'], str) and n['s'] != '' and '$' not in n['s'] and '\r' not in n['s']
                      and xml_char_only(n['s']) == n['s'], 'literal')
+            elif t == 'cdata':
+                _req(isinstance(n['s'], str) and n['s'] != '' and '$' not in n['s'] and '\r' not in n['s']
+                     and ']]>' not in n['s'] and xml_char_only(n['s']) == n['s'], 'cdata')
             elif t == 'site':
                 _req(n['form'] in ('brace', 'dollar', 'replace-attr', 'replace-el'), 'site form')
                 text_expr(n['e'], bound)
             elif t == 'el':
-                _req(n['name'] in ELEMS or (n['name'] in VOID and not n['kids'] and n.get('content') is None), 'element')
+                _req(n['name'] in ELEMS or (n['name'] in VOID and not n['kids'] and n.get('content') is None)
+                     or (n['name'] in RAW and raw_ok(n)), 'element')
                 b2 = bound
                 if 'for' in n:
                     _req(_VAR.match(n['for']['var']) is not None and n['for']['var'] not in data, 'loop variable')
@@ -1289,7 +1426,7 @@ def validate(case):
                     b2 = [n['for']['var']] + bound
                 _req(len(set(a['name'] for a in n['attrs'])) == len(n['attrs']), 'attribute twice')
                 for a in n['attrs']:
-                    _req(a['name'] in ATTRS and a['parts'], 'attr')
+                    _req((a['name'] in ATTRS or (n['name'] in RAW and a['name'] == 'type')) and a['parts'], 'attr')
                     for p in a['parts']:
                         if 'lit' in p:
                             _req(isinstance(p['lit'], str) and '$' not in p['lit'] and xml_char_only(p['lit']) == p['lit']
@@ -1412,8 +1549,6 @@ def in_stated_domain(case):
         for s in _strings_of(v):
             if fit(s, method, 'attr' if name in attr_vars else 'text') != s:
                 return False
-            if name in blank_sensitive and not s.strip():
-                return False
     return True
 
 
@@ -1495,6 +1630,41 @@ def _op_templates():
     return sites
 
 
+def _script(txt='var a = 1;', name='script', attrs=()):
+    return {'t': 'el', 'name': name, 'attrs': [{'name': an, 'parts': [{'lit': av}]} for an, av in attrs],
+            'kids': [{'t': 'lit', 's': txt}] if txt else []}
+
+
+def _prefixes():
+    """(name, wrap) : wrap(tmpl, payload) -> tmpl with repeated static elements in front of the site, so
+    that the site is reached with START / END / TEXT / EMPTY events already in the serializer's cache"""
+    L = lambda s: {'t': 'lit', 's': s}
+    E = lambda name, kids, attrs=(): {'t': 'el', 'name': name, 'attrs': [{'name': an, 'parts': [{'lit': av}]} for an, av in attrs],
+                                      'kids': kids}
+    out = []
+    out.append(('two-scripts', lambda t, s: [_script(), _script()] + t))
+    out.append(('two-styles-then-p', lambda t, s: [_script('p > b { }', 'style', [('type', 'text/css')]),
+                                                    _script('b { }', 'style', [('type', 'text/css')]),
+                                                    E('p', t)]))
+    out.append(('three-scripts-in-div', lambda t, s: [E('div', [_script('x'), _script(''), _script('x'), _script('x')] + t)]))
+    out.append(('repeated-elements', lambda t, s: [E('b', [L('x')], [('title', 't"<')]), E('b', [L('x')], [('title', 't"<')]),
+                                                   E('br', []), E('br', []), E('i', []), E('i', [])] + t))
+
+    C = lambda s: {'t': 'cdata', 's': s}
+    out.append(('cdata-then-site', lambda t, s: [C('x < y & z')] + t))
+    out.append(('two-cdata-then-p', lambda t, s: [C('a'), E('i', []), C('a'), E('p', t)]))
+
+    def same_text(t, s):
+        if not s or '$' in s or '\r' in s or xml_char_only(s) != s:
+            return None
+        return [E('q', [L(s)]), E('q', [L(s)])] + t
+    out.append(('same-text-cached', same_text))
+    return out
+
+
+PREFIX_PAYLOADS = ['<b>', '&', '"><script>alert(1)</script>', '</script>', ']]>', 'a']
+
+
 def matrix_payload_strings(method, where):
     out = []
     for s in CRIT + FRAGS + UNI + WS + (HTML_ONLY if method == 'html' else []):
@@ -1517,8 +1687,6 @@ def matrix_cases(method, strip, impl):
             vals += [{'k': 'm', 's': m['s'], 'toks': m['toks']} for m in SAFE_MARKUP]
             vals += [{'k': 'o', 'str': '<s>', 'html': SAFE_MARKUP[0]}]
         for v in vals:
-            if name.startswith('pyattrs') and v['k'] in ('s', 'o') and not (v.get('s', v.get('str', 'x'))).strip():
-                continue    # finding C01-attrs-blank-dropped
             tmpl, data = mk(v)
             cases.append({'mode': 'template', 'tmpl': tmpl, 'data': data, 'method': method, 'strip': strip, 'impl': impl,
                           })
@@ -1530,12 +1698,24 @@ def matrix_cases(method, strip, impl):
         for v in vals:
             tmpl, data = mk(v)
             cases.append({'mode': 'template', 'tmpl': tmpl, 'data': data, 'method': method, 'strip': strip, 'impl': impl})
+    # every site x a few critical payloads behind repeated static elements (raw-text elements first)
+    for name, where, mk in _site_templates() + _op_templates():
+        for s in PREFIX_PAYLOADS:
+            s = fit(s, method, where)
+            for pname, wrap in _prefixes():
+                tmpl0, data = mk({'k': 's', 's': s})
+                defs = [n for n in tmpl0 if n['t'] == 'def']          # macros stay at the top level
+                tmpl = wrap([n for n in tmpl0 if n['t'] != 'def'], s)
+                if tmpl is None:
+                    continue
+                cases.append({'mode': 'template', 'tmpl': defs + tmpl, 'data': data, 'method': method, 'strip': strip,
+                              'impl': impl})
     return cases
 
 
 CRIT8 = ['&', '<', '>', '"', ';', 'a', '#', 'l']
 EXHAUSTIVE_SITES = ['text:brace', 'attr:whole-brace', 'pyattrs:dict', 'builder:child', 'attr:mixed', 'op:fmt-attr-and-text',
-                    'op:join', 'text:list-value']
+                    'op:join', 'text:list-value', 'text:after-two-scripts']
 
 
 def exhaustive_cases(method, strip, impl, maxlen, part, nparts):
@@ -1543,6 +1723,9 @@ def exhaustive_cases(method, strip, impl, maxlen, part, nparts):
     over `nparts` shards)"""
     import itertools
     sites = dict((n, (w, mk)) for n, w, mk in _site_templates() + _op_templates())
+    sites['text:after-two-scripts'] = ('text', lambda v: ([_script(), _script(), {'t': 'site', 'form': 'brace', 'e': {'k': 'var', 'n': 'v0'}},
+                                                          {'t': 'el', 'name': 'p', 'attrs': [], 'kids': [{'t': 'site', 'form': 'brace', 'e': {'k': 'var', 'n': 'v0'}}]}],
+                                                         {'v0': v}))
     cases = []
     i = 0
     for n in range(maxlen + 1):
@@ -1553,8 +1736,6 @@ def exhaustive_cases(method, strip, impl, maxlen, part, nparts):
             v = {'k': 's', 's': ''.join(tup)}
             for name in EXHAUSTIVE_SITES:
                 where, mk = sites[name]
-                if name.startswith('pyattrs') and not v['s'].strip():
-                    continue
                 tmpl, data = mk(v)
                 cases.append({'mode': 'template', 'tmpl': tmpl, 'data': data, 'method': method, 'strip': strip, 'impl': impl})
     return cases
